@@ -44,6 +44,13 @@ def build_case(cid, rng):
         m.lifetimes.insert(0, "'a")
     lt = "'a " if explicit_lt else ""
     dty = cty if byval else "&%s%s" % (lt, cty)
+    # lifetime relations written as where-predicates (kept on the method, never lifted to the trait)
+    where = ""
+    if explicit_lt and rng.random() < 0.6:
+        if "'b" not in m.lifetimes:
+            m.lifetimes.append("'b")
+            m.params.append(Param(TYPES["str"], "plain", ["zz"], generic="&'b str"))
+        where = " where 'b: 'a"
     opts = rng.choice([[], [], ["?Send"] if False else [], ["export"], ["mockall = false"], ["unimock = false"], ["debug = false"]])
     L = [DEFS] + tg.support_for([m])
     L.append("#[::entrait::entrait(%s)] /*@inv*/" % ", ".join(["pub Subj"] + opts))
@@ -53,14 +60,14 @@ def build_case(cid, rng):
     depexpr = "&deps" if byval else "deps"
     body = m.body(fid, depexpr, name_expr=name_acc)
     vis = rng.choice(["", "pub ", "pub(crate) "])
-    L.append("%s%sfn subj%s(%s)%s %s" % (vis, "async " if m.is_async else "", g, ", ".join(ps), m.ret_text(), body))
+    L.append("%s%sfn subj%s(%s)%s%s %s" % (vis, "async " if m.is_async else "", g, ", ".join(ps), m.ret_text(), where, body))
     # hand-written adoption by a downstream App
     recv = "self" if byval else ("&%sself" % lt)
     call = "self.cfg.subj(%s)%s" % (", ".join(p.names[0] if p.form == "plain" else "__w%d" % i for i, p in enumerate(m.params)), ".await" if m.is_async else "")
     aps = [recv] + [("%s: %s" % (p.names[0] if p.form == "plain" else "__w%d" % i, p.type_text())) for i, p in enumerate(m.params)]
     L.append("#[derive(Clone, Copy)] pub struct App { pub pad: u64, pub cfg: %s }" % cty)
-    L.append("impl Subj for App { %sfn subj%s(%s)%s { ::vrt::recursion_guard(|| ()); %s } }" % (
-        "async " if m.is_async else "", g, ", ".join(aps), m.ret_text(), call))
+    L.append("impl Subj for App { %sfn subj%s(%s)%s%s { ::vrt::recursion_guard(|| ()); %s } }" % (
+        "async " if m.is_async else "", g, ", ".join(aps), m.ret_text(), where, call))
     D = ["pub fn run() {"]
     D.append('    ::vrt::fact("impl_notrait", ::vrt::implements!(::entrait::Impl<NoTrait>: Subj));')
     D.append('    ::vrt::fact("bare_notrait", ::vrt::implements!(NoTrait: Subj));')
